@@ -356,6 +356,15 @@ func c05Verdicts(c *Ctx, b []byte, modelOps bool) {
 		}
 		c.Op("acc 1 "+hx(b), res, len(b) > 1, "acc")
 	}
+	if modelOps {
+		// the whole document passed over: a root Unmarshaler gets the text skipValue delimits
+		var u c05Unm
+		res := "err"
+		if json.Unmarshal(b, &u) == nil {
+			res = "ok"
+		}
+		c.Op("skp "+hx(b), res, len(b) > 1, "skp")
+	}
 	// Valid
 	gv := json.Valid(b)
 	cl = ""
